@@ -314,7 +314,7 @@ Fixpoint quota_run (st : ustate) (steps : list (qop * qsobs)) : list N :=
       let corr := ok && times_agree (us_now st') (us_t st') (so_times o) &&
                   alloc_agree (w_queues (us_w st')) (so_alloc o) &&
                   preempting_agree (w_queues (us_w st')) (so_preempting o) in
-      kind corr 1 ++ kind (c07_quota_ok (us_w st) o) 2 ++ kind (c08_quota_ok st op o) 3 ++
+      kind corr 1 ++ kind (c07_quota_ok (us_w st) o) 2 ++ kind (c08_quota_ok st op o) 3 ++ kind (negb (so_crash o)) 5 ++
       (if corr then quota_run st' rest else [])
   end.
 
